@@ -95,6 +95,18 @@ func ZZH_C11_crash() {
 	}
 	head := lg2.GetChainMeta().Height
 	zz.Assert("C11.height", head == h || head == h-1)
+	// recovery is repeatable: the state store can be opened again right away (the read-only view
+	// ledger of the same start-up does, and so does a second restart before any new block)
+	view, verr := NewSimpleLedger(nil, stateStore, nil, zz.Logger())
+	zz.Assert("C11.state-store-opens-again", verr == nil && view.Version() == head)
+	if zz.Choice("secondRestart", 2) == 1 {
+		lg3, err3 := New(nil, chainStore, stateStore, zz.ReopenBlockFile(bf2), nil, zz.Logger())
+		zz.Assert("C11.second-restart", err3 == nil && lg3.GetChainMeta().Height == head && lg3.Version() == head)
+		if err3 != nil {
+			return
+		}
+		lg2 = lg3
+	}
 	zz.Cover("C11.recovered-new", head == h)
 	zz.Cover("C11.recovered-old", head == h-1)
 	zz.Assert("C11.state-version", lg2.Version() == head)
